@@ -2,7 +2,7 @@
    Only ExtrOcamlBasic is used (bool, option, unit, list, prod, sumbool -> OCaml natives; andb/orb/fst/snd inlined);
    nat, positive, N and Z stay the inductive Coq types. *)
 From Coq Require Import ExtrOcamlBasic.
-From BB.Model Require Channel Cleaner Buffer Callable Retry Caster Workers Worker Attempt Context PubSubSanity Notifier ExclusiveAbs WaitCond CleanerProto CasterAbs CasterBridge NotifierLock ExclusiveVal PubSubAbs PubSubSplit PubSubTag PubSubIdx PubSubTraceAux PubSubIter.
+From BB.Model Require Channel Cleaner Buffer Callable Retry Caster Workers Worker Attempt Context PubSubSanity Notifier ExclusiveAbs WaitCond CleanerProto CasterAbs CasterBridge NotifierLock ExclusiveVal PubSubAbs PubSubSplit PubSubTag PubSubIdx PubSubTraceAux PubSubIter WorkerWait WorkerTraceAux.
 Separate Extraction
   Channel.init Channel.step Channel.run Channel.spec_init Channel.spec_step Channel.spec_run Channel.abs
   Buffer.init Buffer.step Buffer.step_settled Buffer.run Buffer.clean Buffer.settle Buffer.buffer_range Buffer.pkg_range
@@ -25,6 +25,7 @@ Separate Extraction
   ExclusiveVal.vinit ExclusiveVal.vstep ExclusiveVal.vterminalb ExclusiveVal.vproj ExclusiveVal.vproj_pick
   PubSubSplit.xstep PubSubTraceAux.jstep PubSubTraceAux.jinit PubSubTraceAux.jcount_ok PubSubTraceAux.jrestb PubSubTraceAux.pick_at
   PubSubIter.istep PubSubIter.iinit PubSubIter.iterminalb
+  WorkerWait.pinit WorkerWait.pstep WorkerTraceAux.at_restb WorkerTraceAux.p_at_restb WorkerTraceAux.single_okb WorkerTraceAux.held_okb WorkerTraceAux.outstanding WorkerTraceAux.gen_of WorkerTraceAux.wp_of WorkerTraceAux.ip_of WorkerTraceAux.isc_of WorkerTraceAux.stopc_of WorkerTraceAux.donec_of WorkerTraceAux.early_of WorkerTraceAux.counter_of
   ExclusiveAbs.init ExclusiveAbs.step ExclusiveAbs.run ExclusiveAbs.observe ExclusiveAbs.all_picks ExclusiveAbs.all_vars ExclusiveAbs.terminalb
   WaitCond.init WaitCond.step
   CleanerProto.init CleanerProto.step CleanerProto.is_terminal
